@@ -257,6 +257,126 @@ func (w *vcoWorld) validPledge(refs []crypto.Hash, after uint64) (*common.Versio
 	return tx.AsVersioned(), ts, w.node.electSnapshotNode(common.TransactionTypeNodePledge, ts)
 }
 
+// ---- validateSnapshotTransaction on a store that already holds the members --------------------
+
+// a mint paying to a known address, finalized alone in its own snapshot (fabricated chain, round 0)
+func (w *vcoWorld) finalizedMint(owner *common.Address) *common.VersionedTransaction {
+	w.seq++
+	tx := common.NewTransactionV5(common.XINAssetId)
+	tx.AddUniversalMintInput(uint64(500000+w.seq), common.NewInteger(1))
+	seed := vcoHash("vst-mint-seed", w.dir, w.seq)
+	tx.AddScriptOutput([]*common.Address{owner}, common.NewThresholdScript(1), common.NewInteger(1), append(seed[:], seed[:]...))
+	tx.References = w.refs("last")
+	ver := tx.AsVersioned()
+	w.seq++
+	s := w.snapshot(vcoHash("vst-node", w.dir, w.seq), 0, w.lastTs()+10+int64(w.seq), ver.PayloadHash())
+	w.stash(s, ver)
+	return ver
+}
+
+// a signed script transaction spending output 0 of src; hash below / above the pivot as requested
+func (w *vcoWorld) scriptSpending(src *common.VersionedTransaction, owner *common.Address, pivot crypto.Hash, below bool) *common.VersionedTransaction {
+	for i := 0; i < 200; i++ {
+		w.seq++
+		tx := common.NewTransactionV5(common.XINAssetId)
+		tx.AddInput(src.PayloadHash(), 0)
+		seed := vcoHash("vst-script-seed", w.dir, w.seq)
+		tx.AddScriptOutput([]*common.Address{owner}, common.NewThresholdScript(1), common.NewInteger(1), append(seed[:], seed[:]...))
+		ver := tx.AsVersioned()
+		h := ver.PayloadHash()
+		if (string(h[:]) < string(pivot[:])) != below {
+			continue
+		}
+		if err := ver.SignInput(w.store, 0, []*common.Address{owner}); err != nil {
+			w.t.Fatalf("sign: %v", err)
+		}
+		return ver
+	}
+	w.t.Fatalf("hash grinding failed")
+	return nil
+}
+
+func (w *vcoWorld) place(ver *common.VersionedTransaction, state string) {
+	switch state {
+	case "cached":
+		if err := w.store.CacheStoreTransaction(ver); err != nil {
+			w.t.Fatalf("cache: %v", err)
+		}
+	case "persisted":
+		if err := ver.LockInputs(w.store, false); err != nil {
+			w.t.Fatalf("lock: %v", err)
+		}
+		if err := w.store.WriteTransaction(ver); err != nil {
+			w.t.Fatalf("write: %v", err)
+		}
+	}
+}
+
+func (w *vcoWorld) vstCases(tr *vTrace) {
+	owner := vmtAddr("vst-owner"+w.dir, 0)
+	for _, mintFirst := range []bool{false, true} {
+		for _, bstate := range []string{"cached", "persisted"} {
+			for _, finalized := range []bool{true, false} {
+				for _, size := range []int{2, 3} {
+					for _, mstate := range []string{"finalized", "missing"} {
+						mint := w.finalizedMint(&owner)
+						pivot := mint.PayloadHash()
+						if mstate == "missing" {
+							// an unknown transaction hash of the same position
+							pivot = vcoHash("vst-missing", w.dir, w.seq)
+						}
+						src := mint
+						members := map[crypto.Hash]string{pivot: "mint"}
+						states := map[crypto.Hash]string{pivot: mstate}
+						hashes := []crypto.Hash{pivot}
+						for k := 1; k < size; k++ {
+							if k > 1 {
+								src = w.finalizedMint(&owner) // another spendable output
+							}
+							sc := w.scriptSpending(src, &owner, pivot, !mintFirst)
+							w.place(sc, bstate)
+							members[sc.PayloadHash()], states[sc.PayloadHash()] = "script", bstate
+							hashes = append(hashes, sc.PayloadHash())
+						}
+						s := w.snapshot(w.node.IdForNetwork, 1, w.lastTs()+100000+int64(w.seq), hashes...)
+						res, _ := vCall(func() error {
+							_, _, err := w.node.validateSnapshotTransaction(s, finalized)
+							return err
+						})
+						cl, st := []string{}, []string{}
+						for _, h := range s.Transactions { // the snapshot's own (sorted) order
+							cl, st = append(cl, members[h]), append(st, states[h])
+						}
+						tr.Emit(vM{"ev": "vst", "classes": cl, "states": st, "finalized": finalized, "res": res})
+					}
+				}
+			}
+		}
+	}
+	// all members batchable: accepted (non-vacuity)
+	for _, finalized := range []bool{true, false} {
+		m1, m2 := w.finalizedMint(&owner), w.finalizedMint(&owner)
+		a := w.scriptSpending(m1, &owner, crypto.Hash{}, false)
+		b := w.scriptSpending(m2, &owner, crypto.Hash{}, false)
+		w.place(a, "cached")
+		w.place(b, "persisted")
+		s := w.snapshot(w.node.IdForNetwork, 1, w.lastTs()+100000+int64(w.seq), a.PayloadHash(), b.PayloadHash())
+		res, _ := vCall(func() error {
+			_, _, err := w.node.validateSnapshotTransaction(s, finalized)
+			return err
+		})
+		st := []string{}
+		for _, h := range s.Transactions {
+			if h == a.PayloadHash() {
+				st = append(st, "cached")
+			} else {
+				st = append(st, "persisted")
+			}
+		}
+		tr.Emit(vM{"ev": "vst", "classes": []string{"script", "script"}, "states": st, "finalized": finalized, "res": res})
+	}
+}
+
 func TestVerifConsensusOps(t *testing.T) {
 	tr := vOpenTrace(t)
 	defer tr.Close()
@@ -284,6 +404,9 @@ func TestVerifConsensusOps(t *testing.T) {
 		w.refTable(tr)
 		w.write(tr, vcoOp{Cls: "mint", N: 1, Ref: "last", Tsk: "gt"})
 	}
+
+	// ---- validateSnapshotTransaction with members already finalized / persisted / cached
+	w.vstCases(tr)
 
 	// ---- snapshot decision table (history: genesis + 3 recorded mint operations)
 	remote := w.ids2()[1]
